@@ -9,8 +9,8 @@ B  the Lean model of the whole function (iteration loop over `mutational_timesca
 C  the statement on the real function over contemporaneous-sample inputs x num_intervals x num_iterations x
    match_segregating_sites: returns a valid tree sequence, sample times unchanged, non-sample order preserved, topology /
    sites / mutations unchanged, every mutation at the midpoint of its branch (node time above a root); ancient samples are
-   rejected with ValueError.  An AssertionError of the rescaling step on an interval without mutations is the F5
-   mechanism reached through this entry point: classified, characterised (`timescale_strict_iff`), reported as known.
+   rejected with ValueError.  Since /repo fa21a50 (repair of F5) intervals without mutations are merged, so an
+   AssertionError of the rescaling step is a violation; the inputs on which merging matters are counted.
 """
 
 import numpy as np
@@ -19,7 +19,7 @@ from .. import common, dating, gen, rescale_corr as rc
 from ..common import Result, Violation, f2h
 
 META = dict(
-    level='Lean theorems over the model of rescale_tree_sequence (iteration of mutational_timescale + piecewise_scale_point_estimate, then mutation midpoints), for every edge list, likelihood table, sample mask, interval and iteration count, whenever no assertion of the code fires (exact arithmetic): sample times unchanged; non-sample times transformed by a non-decreasing map (order of any two free nodes with non-negative times preserved); each step strictly increasing up to the oldest node time, so strict parent>child order survives; mutation on an edge gets the midpoint of the edge (between child and parent), mutation above a root its node time. Model tied to the real function bit-for-bit (node and mutation times, and which inputs assert). Outside: tskit table validity/sort/compute_mutation_parents by contract; "same topology" is tied by the oracle only (the code does not touch edges); inputs with an interval without mutations stop with AssertionError (F5 mechanism, known finding).',
+    level='Lean theorems over the model of rescale_tree_sequence (iteration of mutational_timescale + piecewise_scale_point_estimate, then mutation midpoints), for every edge list, likelihood table, sample mask, interval and iteration count, whenever no assertion of the code fires (exact arithmetic): sample times unchanged; non-sample times transformed by a non-decreasing map (order of any two free nodes with non-negative times preserved); each step strictly increasing up to the oldest node time, so strict parent>child order survives; mutation on an edge gets the midpoint of the edge (between child and parent), mutation above a root its node time. Model tied to the real function bit-for-bit (node and mutation times, and which inputs assert). Outside: tskit table validity/sort/compute_mutation_parents by contract; "same topology" is tied by the oracle only (the code does not touch edges); that no assertion fires is C25.timescale_breaks_strict under its hypothesis (two node times differ) and is checked on every input.',
     note='Lean kernel + {propext, Classical.choice, Quot.sound}; sampled bit-exact correspondence at Float; count_mutations (C24) and tskit by contract',
     technique='loop invariant by induction over iterations on top of the C25 interpolant lemmas; bit-exact model/implementation correspondence on the whole function',
     ref='§3 C37',
@@ -67,11 +67,11 @@ def enc_iter(i, c, kw, mnodes, num="f"):
 
 
 def empty_interval(c, kw):
-    """does some rescaling interval of the first iteration carry no mutations (exact)? -> the F5 mechanism"""
+    """does some rescaling interval of the first iteration carry no mutations (exact)?"""
     from ..props import c25
     want_c, _, _, _ = rc.direct_overlap(c)
     try:
-        iv = c25.interval_counts(c, kw["num_intervals"], want_c)
+        iv, _ = c25.interval_counts(c, kw["num_intervals"], want_c)
     except Exception:  # noqa: BLE001
         return None
     return any(y <= 0 for y, n, z in iv) or any(n <= 0 for y, n, z in iv)
@@ -149,7 +149,7 @@ def run(ctx):
     import tskit
     res = Result()
     import tsdate  # noqa: F401
-    stats = dict(families={}, outcomes={}, options={}, f5_mechanism=0, empty_interval_cases=0, ancient_rejected=0,
+    stats = dict(families={}, outcomes={}, options={}, empty_interval_cases=0, ancient_rejected=0,
                  hyp_fixed_len=0, mutations_checked=0, root_mutations=0)
     rng = ctx.rng(1)
     cases = []
@@ -176,26 +176,21 @@ def run(ctx):
         if not r["ok"]:
             key = f"{r['exc']}: {r['msg'][:40]}"
             stats["outcomes"][key] = stats["outcomes"].get(key, 0) + 1
-            if r["exc"] == "AssertionError" and (rc.F5_MSG in r["msg"] or rc.ZERO_SPAN_MSG in r["msg"]):
+            if r["exc"] == "AssertionError":
+                # since fix fa21a50 (repair of F5) intervals without mutations are merged: no assertion may fire
                 if m != "assert":
                     res.corr_failures.append(Violation("standalone-assert-differs", f"rescale_tree_sequence raised {r['msg']!r}, the model returns times", replay, "B"))
-                empty = empty_interval(c["inp"], kw)
-                stats["empty_interval_cases"] += int(bool(empty))
-                if empty or kw["num_iterations"] > 1:
-                    stats["f5_mechanism"] += 1
-                    res.violations.append(Violation(
-                        "standalone-rescale-asserts-on-empty-interval",
-                        f"rescale_tree_sequence(num_intervals={kw['num_intervals']}, num_iterations={kw['num_iterations']}) raised "
-                        f"AssertionError: {r['msg']} ({ts.num_mutations} mutations on {ts.num_edges} edges)", replay))
-                else:
-                    res.violations.append(Violation("standalone-rescale-asserts-unexplained",
-                                                    f"AssertionError {r['msg']!r} although every interval carries mutations", replay))
+                res.violations.append(Violation(
+                    "standalone-rescale-asserts",
+                    f"rescale_tree_sequence(num_intervals={kw['num_intervals']}, num_iterations={kw['num_iterations']}) raised "
+                    f"AssertionError: {r['msg']} ({ts.num_mutations} mutations on {ts.num_edges} edges)", replay))
             else:
                 kind = "standalone-rescale-invalid-times" if r["exc"] == "LibraryError" else "standalone-rescale-raises"
                 res.violations.append(Violation(kind, f"rescale_tree_sequence raised {r['exc']}: {r['msg']}", replay))
             continue
         stats["outcomes"]["returned"] = stats["outcomes"].get("returned", 0) + 1
         out = r["out"]
+        stats["empty_interval_cases"] += int(bool(empty_interval(c["inp"], kw)))      # inputs on which the merging step matters
         # B: whole-function correspondence
         if not isinstance(m, dict):
             res.corr_failures.append(Violation("standalone-assert-differs", f"the model answers {m}, rescale_tree_sequence returns", replay, "B"))
